@@ -220,6 +220,10 @@ static std::vector<Op> table()
        ST::utf32_buffer b = ST::utf8_to_utf32(f.bad8.data(), f.bad8.size(), ST::substitute_invalid); ST::char_buffer c = ST::utf8_to_latin_1(f.bad8.data(), f.bad8.size(), ST::substitute_invalid); (void)a; (void)b; (void)c);
     OP("utf16/32_to_utf8 ill-formed, substitute_invalid", ST::char_buffer a = ST::utf16_to_utf8(f.bad16.data(), f.bad16.size(), ST::substitute_invalid);
        ST::char_buffer b = ST::utf32_to_utf8(f.bad32.data(), f.bad32.size(), ST::substitute_invalid); (void)a; (void)b);
+    OP("string.set_validated(const char_buffer&)", f.s[0]->set_validated(*f.cb); E(f.sv[0] = f.cbv));
+    OP("string.set_validated(char_buffer&&)", ST::char_buffer tmp(*f.cb); f.s[0]->set_validated(std::move(tmp)); E(f.sv[0] = f.cbv));
+    OP("string::from_validated(const char_buffer&)", ST::string x = ST::string::from_validated(*f.cb); (void)x);
+    OP("string.set_validated(char8_t*,n)", f.s[0]->set_validated(reinterpret_cast<const char8_t *>(f.stds.data()), f.stds.size()); E(f.sv[0] = f.stds));
     OP("string.set_validated", f.s[0]->set_validated(f.stds.c_str(), f.stds.size()); E(f.sv[0] = f.stds));
     OP("string+string", ST::string x = *f.s[0] + *f.s[1]; (void)x);
     OP("string+const char*", ST::string x = *f.s[0] + f.stds.c_str(); (void)x);
@@ -306,9 +310,9 @@ static void body()
 {
     vrt::require("faults.injected", 500);
     vrt::require("faults.bad_alloc_reached_caller", 500);
-    vrt::require("ops.covered", 100);
+    vrt::require("ops.covered", 104);
     static const std::vector<Op> ops = table();
-    const size_t nvar = vrt::tier_count(8, 60);      // random fillings per (operation, storage-mode combination)
+    const size_t nvar = vrt::tier_count(40, 160);      // random fillings per (operation, storage-mode combination)
     vrt::note(sfmt("fault enumeration: %zu allocating operations x 4 storage-mode combinations (short/long target x short/long argument) x %zu random fillings x every allocation index k = 1..N of the call", ops.size(), nvar));
     vrt::phase("fault_enumeration", ops.size() * 4 * nvar, [&](uint64_t idx, Rng &r) {
         const Op &op = ops[idx % ops.size()];
